@@ -37,6 +37,25 @@ pub fn pool() -> &'static StaticsPool {
         // a 16-byte text ending in a continuation byte, and 17-byte ones
         pristine.push("abcdefghijklmn\u{7ff}".to_string());
         pristine.push("abcdefghijklmn€".to_string());
+        // 33-byte texts whose 16th byte (index 15) takes every kind of value a text byte can have there:
+        // ASCII, every continuation byte class, and every lead byte (2-byte leads 0xC2..=0xDF cover the
+        // values the handle uses as length / heap / static markers)
+        for cp in (0xC2u32..=0xDF).map(|lead| (lead - 0xC0) << 6).chain([0x800, 0x1000, 0xD000, 0xFFFF, 0x10000, 0x40000, 0x10FFFF]) {
+            if let Some(ch) = char::from_u32(cp) {
+                // the character starts at byte 15
+                let mut t = "0123456789abcde".to_string();
+                t.push(ch);
+                while t.len() < 33 {
+                    t.push('w');
+                }
+                pristine.push(t);
+                // the character ends at byte 15 (a continuation byte there)
+                let mut t = "x".repeat(16 - ch.len_utf8());
+                t.push(ch);
+                t.push_str("-tail after sixteen");
+                pristine.push(t);
+            }
+        }
         let texts = pristine.iter().map(|s| &*Box::leak(s.clone().into_boxed_str())).collect();
         StaticsPool { texts, pristine }
     })
